@@ -110,7 +110,7 @@ pub(crate) mod verif_keyring {
 
     // ---------------------------------------------------------------- E-KDF (injective, deterministic)
     pub static mut KDF_PW: [[u8; 4]; 3] = [[0; 4]; 3];
-    pub static mut KDF_LONG: [[u8; 132]; 3] = [[0; 132]; 3]; // passwords of exactly 132 bytes (the long-password harness)
+    pub static mut KDF_LONG: [[u8; 132]; 3] = [[0; 132]; 3]; // passwords of 5..132 bytes, in full (the long-password harness)
     pub static mut KDF_PWLEN: [usize; 3] = [0; 3];
     pub static mut KDF_SALT: [[u8; 32]; 3] = [[0; 32]; 3];
     pub static mut KDF_OUT: [[u8; 32]; 3] = [[0; 32]; 3];
@@ -119,12 +119,14 @@ pub(crate) mod verif_keyring {
     pub fn scrypt_model(password: &[u8], salt: &[u8], n: usize, r: usize, p: usize, dk_len: usize) -> Vec<u8> {
         unsafe {
             if !(n == 32768 && r == 8 && p == 1 && dk_len == 32 && salt.len() == 32) { KDF_PARAMS_OK = false; }
-            assert!(password.len() <= 4 || password.len() == 132, "[LIMIT] harness bound: passwords of 0..4 bytes, or of exactly 132 bytes");
-            let long = password.len() == 132;
+            assert!(password.len() <= 132, "[LIMIT] harness bound: passwords of at most 132 bytes");
+            // (passwords longer than 4 bytes - used with concrete lengths only - are recorded in full, so that a caller
+            // that hands over a truncated or otherwise altered password is seen as using a DIFFERENT password)
+            let long = password.len() > 4;
             let pl = if long { 4 } else { password.len() };
             let mut i = 0;
             while i < KDF_N.0 {
-                if KDF_PWLEN[i] == password.len() && eq(password, &KDF_PW[i], pl) && (!long || eq(password, &KDF_LONG[i], 132)) && eq(salt, &KDF_SALT[i], 32) { return KDF_OUT[i].to_vec(); }
+                if KDF_PWLEN[i] == password.len() && eq(password, &KDF_PW[i], pl) && (!long || eq(password, &KDF_LONG[i], password.len())) && eq(salt, &KDF_SALT[i], 32) { return KDF_OUT[i].to_vec(); }
                 i += 1;
             }
             assert!(KDF_N.0 < 3, "[LIMIT] harness bound: three distinct scrypt inputs");
@@ -133,7 +135,7 @@ pub(crate) mod verif_keyring {
             let mut j = 0;
             while j < 4 { if j < pl { KDF_PW[k][j] = password[j]; } j += 1; }
             KDF_PWLEN[k] = password.len();
-            if long { KDF_LONG[k].copy_from_slice(password); }
+            if long { let mut j = 0; while j < 132 { if j < password.len() { KDF_LONG[k][j] = password[j]; } j += 1; } }
             KDF_SALT[k].copy_from_slice(salt);
             let o: [u8; 32] = kani::any();
             // injective: a new (password, salt) never yields an earlier key
